@@ -16,7 +16,7 @@ from .repo import Unsupported, REPO_ROOT
 from .contract import Obligation, Verifier, VERIF_ROOT
 from .smt import discharge, solve_model
 from .sym import concretise, length_terms
-from .values import str_distinct_axioms, str_lit_table
+from .values import str_distinct_axioms, theory_axioms, str_lit_table
 
 NATIVE_PY = os.environ.get("VERIF_NATIVE_PY", "/venv/bin/python")
 KNOWN_FILE = os.path.join(VERIF_ROOT, "KNOWN_FINDINGS.txt")
@@ -85,16 +85,56 @@ class Session:
         except Unsupported as e:
             self.undecided.append(dict(what=label, reason=f"outside the verified subset: {e}"))
         except Exception as e:  # engine crash: checker error, never a verdict
-            self.errors.append(f"{label}: {type(e).__name__}: {e}\n{traceback.format_exc()}")
+            self.errors.append(f"{label}: {type(e).__name__}: {e}\n" + "".join(traceback.format_exc().splitlines(True)[-7:]))
         return None
 
     # ------------------------------------------------------------------ discharging
     def discharge_all(self):
         obls = self.obligations
-        queries = [o.smt2() for o in obls]
-        results = discharge(queries, timeout_ms=self.timeout_ms, cross=(self.tier == "thorough"))
-        for o, r in zip(obls, results):
+        from .smt import bounded_expand, to_smt2
+        # witnesses first: covers / canaries are tried on their bounded expansion (a `sat` there is genuine)
+        pre = {}
+        wit = [o for o in obls if o.expect == "sat"]
+        if wit:
+            qs = []
+            for o in wit:
+                exp = bounded_expand(o.assertions, 2)
+                qs.append(to_smt2(exp + theory_axioms(exp)))
+            for o, r in zip(wit, discharge(qs, timeout_ms=min(self.timeout_ms, 10000), cross=False, cvc5=False)):
+                if r["result"] == "sat":
+                    r["backend"] += "+bounded-expansion(B=2)"
+                    pre[id(o)] = r
+        rest = [o for o in obls if id(o) not in pre]
+        results = discharge([o.smt2() for o in rest], timeout_ms=self.timeout_ms, cross=(self.tier == "thorough"))
+        for o, r in zip(rest, results):
             o.verdict = r
+        for o in obls:
+            if id(o) in pre:
+                o.verdict = pre[id(o)]
+        # second round: bounded expansion of index quantifiers, for witnesses only (a `sat` there is a
+        # genuine `sat`): covers/canaries that stayed unknown, and proof obligations that stayed unknown
+        from .smt import bounded_expand, to_smt2
+        again = [o for o in obls if o.verdict["result"] == "unknown"]
+        for B in (2, 4):
+            if not again:
+                break
+            qs = []
+            for o in again:
+                try:
+                    qs.append(to_smt2((lambda ex_: ex_ + theory_axioms(ex_))(bounded_expand(o.assertions, B))))
+                except Exception as e:
+                    qs.append("(assert false)(check-sat)")
+            rs = discharge(qs, timeout_ms=self.timeout_ms, cross=False)
+            nxt = []
+            for o, r in zip(again, rs):
+                o.verdict["log"] += [(f"bounded-expansion(B={B})",) + tuple(l[1:]) for l in r["log"]]
+                o.verdict["time_s"] = round(o.verdict["time_s"] + r["time_s"], 3)
+                if r["result"] == "sat":
+                    o.verdict.update(result="sat", backend=f"{r['backend']}+bounded-expansion(B={B})", reason="")
+                    o.expanded_B = B
+                else:
+                    nxt.append(o)
+            again = nxt
         return results
 
     def triage(self):
@@ -193,7 +233,13 @@ class Session:
         lens = []
         for v in o.inputs.values():
             lens += length_terms(v)
-        base = o.assertions + str_distinct_axioms()
+        base = o.assertions + theory_axioms(o.assertions)
+        if getattr(o, "expanded_B", None):
+            from .smt import bounded_expand
+            exp = bounded_expand(o.assertions, o.expanded_B)
+            model, r = solve_model(exp + theory_axioms(exp), timeout_ms=self.timeout_ms)
+            if model is not None:
+                return model
         for bound in (3, 6, None):
             extra = [l <= bound for l in lens] if bound is not None else []
             if bound is None and not lens:
